@@ -93,6 +93,9 @@ class ScriptedContext:
         self.seq_in = 0
         self.calls_after_complete = 0
         self.events: t.List[t.Tuple[str, t.Any]] = []
+        self.strict_completion = False  # per-message calls on an unfinished context are refused (what GSS / SSPI do)
+        self.expect_in: t.Optional[t.List[t.Optional[bytes]]] = None  # the peer's tokens in order: a real mechanism rejects anything else
+        self.provisional_sig_size: t.Optional[int] = None  # header size reported while the context is still incomplete
         self.fail_wrap_at: t.Dict[int, str] = {}  # index of the wrap_iov call -> name of the spnego exception it raises (a transient provider error)
         self.fail_unwrap_at: t.Dict[int, str] = {}
 
@@ -108,11 +111,20 @@ class ScriptedContext:
         i = len(self.steps)
         self.steps.append(None if in_token is None else bytes(in_token))
         self.events.append(("step", None if in_token is None else bytes(in_token)))
+        if self.expect_in is not None and i < len(self.expect_in):
+            want = self.expect_in[i]
+            got = None if in_token is None else bytes(in_token)
+            if (want or b"") != (got or b""):
+                import spnego.exceptions as se
+
+                raise se.InvalidTokenError(context_msg=f"scripted context: leg {i} expected the peer token {want!r}, got {got!r}")
         if i < len(self.tokens):
             return self.tokens[i]
         return b""
 
     def query_message_sizes(self) -> Sizes:
+        if self.provisional_sig_size is not None and len(self.steps) <= self.complete_after:
+            return Sizes(self.provisional_sig_size)
         return Sizes(self.sig_size)
 
     def _sig(self, direction: str, seq: int, bufs) -> bytes:
@@ -131,6 +143,10 @@ class ScriptedContext:
         bufs = _norm(iov)
         self.wraps.append({"iov": bufs, "encrypt": encrypt, "qop": qop})
         self.events.append(("wrap", bufs))
+        if self.strict_completion and len(self.steps) <= self.complete_after:
+            import spnego.exceptions as se
+
+            raise se.NoContextError(context_msg="scripted context: wrap on a context that is not established")
         if len(self.wraps) - 1 in self.fail_wrap_at:
             import spnego.exceptions as se
 
